@@ -1,0 +1,8 @@
+//go:build !verif
+// +build !verif
+
+package tcell
+
+// verifSched is a schedule point used by external verification harnesses.
+// Without the "verif" build tag it is an empty function.
+func verifSched(string) {}
